@@ -84,7 +84,8 @@ def _cursor_walk(F, lp, cur, start):
         # "nothing is recorded" is only certain when the loop does nothing but step
         other_stmts = [x for x in au.stmts(lp.body) if x is not step and not (isinstance(x, ast.Assign) and all(isinstance(t, ast.Name) for t in x.targets)
                                                                               and not any(isinstance(n, ast.Call) for n in ast.walk(x)))]
-        if F.opaque(lp, {cur}) or (not recs and other_stmts) or (recs and len(recs) == 1):
+        if F.opaque(lp, {cur}) or not recs or (recs and len(recs) == 1) or len({hr.key(c.func.value) for c in recs}) > 1:
+            # a loop that records nothing the rule can see (a pre-walk, a list built by concatenation ..) is not judged
             return None, "the recording of the walked nodes is not recognised"
         w.problem = f"back-tracking does not record exactly one node per step ({len(recs)} unconditional record(s) of the walked node in the loop)"
         return w, ""
@@ -112,6 +113,15 @@ def _cursor_walk(F, lp, cur, start):
             return None, "the back-tracked list is not empty when the walk starts"
     else:
         return None, "the back-tracked list is not a local list"
+    lkey = hr.key(lst) if not isinstance(lst, ast.Name) else None
+    blk, _own = au.enclosing_block(lp)
+    if blk is not None:
+        for st_ in blk[:sk.index_in(blk, lp)]:
+            for c_ in au.calls(st_):
+                if isinstance(c_.func, ast.Attribute) and c_.func.attr in ("append", "insert", "appendleft", "extend") and \
+                        ((isinstance(lst, ast.Name) and isinstance(c_.func.value, ast.Name) and c_.func.value.id == lst.id) or
+                         (lkey is not None and hr.key(c_.func.value) == lkey)):
+                    return None, "the back-tracked list already holds nodes when the walk starts"
     rec_first = F.before(rec, step)
     w.lst, w.record = lst, rec
     w.orient = "start-first" if prepend else "origin-first"
@@ -178,7 +188,92 @@ def follow(F, w: Walk, start_names):
 
     def is_start(x):
         return isinstance(x, ast.Name) and (x.id == w.start or x.id in start_names or F.root(x.id, w.loop) in start_names)
+    def mentions_list(e):
+        return any((isinstance(n, ast.Name) and n.id in names) or (key is not None and isinstance(n, ast.Subscript) and hr.key(n) == key) for n in ast.walk(e))
+
+    def read_only(e):
+        """every mention of the list inside e is an element read `L[i]` or an argument of len / bool / str"""
+        def ro(n, inside):
+            if on_list(n):
+                return inside
+            if isinstance(n, ast.Subscript) and on_list(n.value) and not isinstance(n.slice, ast.Slice):
+                return ro(n.slice, False)
+            if isinstance(n, ast.Call) and au.call_tail(n) in ("len", "bool", "str", "repr") and len(n.args) == 1 and on_list(n.args[0]):
+                return True
+            if isinstance(n, ast.UnaryOp) and isinstance(n.op, ast.Not) and on_list(n.operand):
+                return True                     # truth test
+            if isinstance(n, ast.IfExp):
+                return (on_list(n.test) or ro(n.test, False)) and ro(n.body, False) and ro(n.orelse, False)
+            if isinstance(n, ast.Compare):
+                return all(on_list(x) or ro(x, False) for x in [n.left] + list(n.comparators))
+            return all(ro(c, False) for c in ast.iter_child_nodes(n))
+        return ro(e, False)
+
+    def add_start(at_front):
+        end_is_start_side = (w.orient == "start-first") == at_front
+        if w.has_start:
+            w.problem = "`start` is recorded a second time after the loop"
+        elif not end_is_start_side:
+            w.unknown = "start is added at the origin side of the list"
+        else:
+            w.has_start = True
+
+    def flip():
+        w.orient = "start-first" if w.orient == "origin-first" else "origin-first"
+
+    def apply_expr(e):
+        """e is a list derived from the back-tracked list by operations the model follows (applied to the model): True, else False"""
+        if on_list(e):
+            return True
+        if isinstance(e, ast.Subscript) and isinstance(e.slice, ast.Slice):
+            if not apply_expr(e.value):
+                return False
+            lo, up, step = e.slice.lower, e.slice.upper, e.slice.step
+            if step is not None and au.const(step) == -1 and lo is None and up is None:
+                flip()
+                return True
+            if step is None and lo is None and up is None:
+                return True
+            if step is None and lo is None and au.const(up) == -1:
+                _drop(w, False)
+                return w.unknown is None
+            if step is None and up is None and au.const(lo) == 1:
+                _drop(w, True)
+                return w.unknown is None
+            return False
+        if isinstance(e, ast.Call) and au.call_tail(e) in ("list", "tuple", "copy", "deepcopy") and len(e.args) == 1 and not e.keywords:
+            a = e.args[0]
+            if isinstance(a, ast.Call) and au.call_tail(a) == "reversed" and len(a.args) == 1:
+                if not apply_expr(a.args[0]):
+                    return False
+                flip()
+                return True
+            return apply_expr(a)
+        if isinstance(e, ast.Call) and isinstance(e.func, ast.Attribute) and e.func.attr == "copy" and not e.args:
+            return apply_expr(e.func.value)
+        if isinstance(e, ast.BinOp) and isinstance(e.op, ast.Add):
+            for lit, other, front in ((e.left, e.right, True), (e.right, e.left, False)):
+                if isinstance(lit, (ast.List, ast.Tuple)) and len(lit.elts) == 1 and is_start(lit.elts[0]) and mentions_list(other):
+                    if not apply_expr(other):
+                        return False
+                    add_start(front)
+                    return not (w.problem or w.unknown)
+            return False
+        if isinstance(e, (ast.List, ast.Tuple)) and len(e.elts) == 2 and sum(isinstance(x, ast.Starred) for x in e.elts) == 1:
+            front = not isinstance(e.elts[0], ast.Starred)
+            lit = e.elts[0] if front else e.elts[1]
+            star = e.elts[1] if front else e.elts[0]
+            if is_start(lit):
+                if not apply_expr(star.value):
+                    return False
+                add_start(front)
+                return not (w.problem or w.unknown)
+            return False
+        return False
+
+    w.handled = []
     for st in following:
+        w.handled.append(st)
         mentions = [n for n in au.walk(st) if (isinstance(n, ast.Name) and n.id in names) or (key is not None and isinstance(n, ast.Subscript) and hr.key(n) == key)]
         if not mentions:
             continue
@@ -213,60 +308,68 @@ def follow(F, w: Walk, start_names):
                 and au.const(st.targets[0].slice) in (0, -1):
             _drop(w, au.const(st.targets[0].slice) == 0)
             continue
-        if isinstance(st, ast.Assign) and len(st.targets) == 1 and isinstance(st.targets[0], (ast.Name, ast.Subscript)):
-            v = st.value
+        if isinstance(st, ast.Assign) and len(st.targets) == 1 and isinstance(st.targets[0], (ast.Name, ast.Subscript, ast.Attribute)) \
+                and mentions_list(st.value):
             tgt = st.targets[0]
-
-            def rebind():
-                if isinstance(tgt, ast.Name):
-                    names.add(tgt.id)
-                    return True
-                return False
-            if on_list(v) and not isinstance(v, ast.Subscript):
-                if rebind():
-                    continue
-                # D[t] = L : the list is stored in the result
-                w.final_use = st
+            if read_only(st.value):
+                rebuilt = (isinstance(tgt, ast.Name) and tgt.id in names) or (not isinstance(tgt, ast.Name) and on_list(tgt)) or \
+                    (isinstance(st.value, (ast.ListComp, ast.GeneratorExp, ast.List, ast.Tuple)) or
+                     (isinstance(st.value, ast.Call) and au.call_tail(st.value) in ("list", "tuple", "sorted")))
+                if rebuilt:
+                    w.unknown = "a list is rebuilt from the elements of the back-tracked list"
+                    return w
+                continue                                # ind = path[-1], n = len(path)
+            r = apply_expr(st.value)
+            if w.problem or w.unknown:
                 return w
-            if isinstance(v, ast.Subscript) and on_list(v.value) and isinstance(v.slice, ast.Slice):
-                lo, up, step = v.slice.lower, v.slice.upper, v.slice.step
-                if step is not None and au.const(step) == -1 and lo is None and up is None:
-                    w.orient = "start-first" if w.orient == "origin-first" else "origin-first"
-                    if rebind():
-                        continue
-                elif step is None and lo is None and au.const(up) == -1:
-                    _drop(w, False)
-                    if rebind():
-                        continue
-                elif step is None and up is None and au.const(lo) == 1:
-                    _drop(w, True)
-                    if rebind():
-                        continue
-                w.final_use = st
+            if not r:
+                w.unknown = "a value derived from the back-tracked list is not recognised"
                 return w
-            if (isinstance(v, ast.Call) and au.call_tail(v) in ("list", "tuple", "copy") and len(v.args) == 1 and on_list(v.args[0])) or \
-                    (isinstance(v, ast.Call) and isinstance(v.func, ast.Attribute) and v.func.attr == "copy" and not v.args and on_list(v.func.value)) or \
-                    (isinstance(v, ast.Subscript) and on_list(v.value) and isinstance(v.slice, ast.Slice) and v.slice.lower is None and v.slice.upper is None
-                     and v.slice.step is None):
-                if rebind():
+            if isinstance(tgt, ast.Name):
+                names.add(tgt.id)                       # the derived list goes on under this name
+                continue
+            w.final_use = st                            # D[t] = <list> : stored in the result
+            return w
+        if isinstance(st, ast.Return) and st.value is not None and mentions_list(st.value):
+            parts = st.value.elts if isinstance(st.value, ast.Tuple) else [st.value]
+            for part in parts:
+                if not mentions_list(part) or read_only(part):
                     continue
-            if isinstance(v, ast.Call) and au.call_tail(v) == "list" and len(v.args) == 1 and isinstance(v.args[0], ast.Call) \
-                    and au.call_tail(v.args[0]) == "reversed" and on_list(v.args[0].args[0]):
-                w.orient = "start-first" if w.orient == "origin-first" else "origin-first"
-                if rebind():
-                    continue
-                w.final_use = st
-                return w
+                r = apply_expr(part)
+                if w.problem or w.unknown:
+                    return w
+                if not r:
+                    w.unknown = "the returned value derived from the back-tracked list is not recognised"
+                    return w
+            w.final_use = st
+            return w
         # something else mentions the list
         mutators = ("append", "insert", "appendleft", "extend", "reverse", "pop", "popleft", "remove", "clear", "sort")
         mutated = any(isinstance(c.func, ast.Attribute) and c.func.attr in mutators and on_list(c.func.value) for c in au.calls(st)) or \
-            any(isinstance(x, (ast.AugAssign, ast.Delete)) for x in au.stmts([st]))
+            any(isinstance(x, (ast.AugAssign, ast.Delete)) for x in au.stmts([st])) or \
+            any(isinstance(x, ast.Subscript) and isinstance(x.ctx, (ast.Store, ast.Del)) and on_list(x.value) for x in au.walk(st))
         if isinstance(st, (ast.If, ast.For, ast.While, ast.Try, ast.With)):
             if mutated:
                 w.unknown = "the back-tracked list is changed inside a compound statement after the loop"
                 return w
+            derived = [x for x in au.stmts([st]) if isinstance(x, (ast.Return, ast.Assign, ast.AnnAssign, ast.Expr)) and getattr(x, "value", None) is not None
+                       and mentions_list(x.value) and not read_only(x.value)
+                       and not all(on_list(p_) or not mentions_list(p_) or read_only(p_) or
+                                   (isinstance(p_, ast.Call) and all(on_list(a_) or not mentions_list(a_) or read_only(a_) or
+                                                                     (isinstance(a_, ast.Dict) and all(on_list(v_) or not mentions_list(v_) for v_ in a_.values))
+                                                                     for a_ in list(p_.args) + [k_.value for k_ in p_.keywords]))
+                                   for p_ in (x.value.elts if isinstance(x.value, ast.Tuple) else [x.value]))]
+            if derived:
+                w.unknown = "a value derived from the back-tracked list is built inside a compound statement after the loop"
+                return w
             if any(isinstance(x, ast.Return) for x in au.stmts([st])):
                 w.final_use = st
+                return w
+            copied = [c_ for c_ in au.calls(st) if isinstance(c_.func, ast.Attribute) and c_.func.attr in ("append", "insert", "appendleft", "extend", "add")
+                      and any(mentions_list(a_) for a_ in c_.args)] + \
+                [x for x in au.stmts([st]) if isinstance(x, ast.Assign) and mentions_list(x.value) and not all(isinstance(t_, ast.Name) for t_ in x.targets)]
+            if copied:
+                w.unknown = "the elements of the back-tracked list are copied into another container after the loop"
                 return w
             continue                                   # only read (len, truth test, logging ..)
         if mutated:
